@@ -10,6 +10,10 @@ CHECKS = {
          "Exploration: ~10^7 (quick) parses of ~80k generated grammars per configuration are compared (accept/reject and exact token stream) with the reference semantics evaluated on the unoptimized AST; every short string over each grammar's alphabet is enumerated for a subset. Sampled, not a proof.",
          "Trusts harness/pv/src/refsem.rs as the reading of the documented semantics (calibration and ambiguity decisions in DESIGN.md 3.4), pest::unicode::by_name for Unicode property built-ins, and skips cases the prose leaves undefined (empty-stack POP/PEEK) or that diverge. Grammars touched by the lister rewrite are set aside (C05 finding D7).",
          "DESIGN.md section 4, C01"),
+ "C03": ("model-based testing: proptest-generated trees of public ParserState calls run in lockstep with an operational model, state compared after every operation through a cfg snapshot hook; two builds (memchr on/off)",
+         "Exploration: ~1.5M programs x 6 inputs per build (quick) plus every skip_until set of <= 3 short strings on every short input; position, token queue, stack, look-ahead and atomicity are compared after each of the program's operations, and the final pest::state result at the end.",
+         "Trusts the model in harness/pv/src/c03.rs (where rustdoc is silent it mirrors the code; listed in the evidence assumptions). The no-memchr build is a separate cargo package/target dir so feature unification cannot re-enable memchr.",
+         "DESIGN.md section 4, C03"),
  "C05": ("metamorphic per-pass equivalence under an independent reference evaluator, exhaustive over all short inputs per generated grammar; restorer checked differentially against the real VM",
          "Exploration: ~100k generated grammars per configuration (rules shaped like each pass's pattern), each pass applied alone through the cfg hook, before/after compared on every string of length <= 3 (<= 4 thorough) over the grammar's alphabet for every start rule: outcome, end, tokens, final stack. Bounded-exhaustive per grammar, sampled over grammars.",
          "Trusts refsem.rs on both sides of each comparison (C01 ties it to the VM). Node tags are not compared (placement undocumented). Open finding D7 (lister) is recognised by an exact signature: the pass output equals the documented (x~y)*~x rewrite.",
